@@ -109,6 +109,12 @@ def run_batch(prop: str, engine: str, tier: str, base_seed: int, plan: dict) -> 
     if hasattr(wc, "prepare"):
         wc.prepare(tier)
     known = load_known()
+    # replay files of earlier runs of this property are stale by definition
+    _rd = os.path.join(VERIF, "replays", prop)
+    if os.path.isdir(_rd):
+        for _f in os.listdir(_rd):
+            if _f.endswith(".json"):
+                os.remove(os.path.join(_rd, _f))
 
     workers = int(os.environ.get("VERIF_WORKERS", plan.get("workers", min(16, os.cpu_count() or 4))))
     per_task = int(plan.get("per_task_s", 120))
